@@ -151,5 +151,8 @@ int engine_main(int argc, char **argv, const Harness &h);
 void stats_add(const std::string &cls, uint64_t n);
 void stats_note(const std::string &key, const std::string &json_value);
 void stats_commit_case();  // used by exhaustive drivers that bypass rapidcheck
+// a failing case of a mode driver: written as found.case with a line
+// "mode=<mode and arguments>"; --replay runs Harness::extra with them again
+void write_mode_case(const std::string &mode_and_args, const std::string &symptom, const std::string &detail);
 
 }  // namespace vf
